@@ -71,6 +71,12 @@ def run_shard(spec, acc):
                         acc.case_disjoint()
                         rt = call(a_cur, a_kind, a_ex, a_rep, True)
                         rf = call(a_cur, a_kind, a_ex, a_rep, False)
+                        # the function is a pure table lookup: asking again (after the lenient call) must give the same answer
+                        rt2 = call(a_cur, a_kind, a_ex, a_rep, True)
+                        rf2 = call(a_cur, a_kind, a_ex, a_rep, False)
+                        if (rt2[0], str(rt2[1]) if rt2[0] == "ret" else None) != (rt[0], str(rt[1]) if rt[0] == "ret" else None) or \
+                                (rf2[0], str(rf2[1]) if rf2[0] == "ret" else None) != (rf[0], str(rf[1]) if rf[0] == "ret" else None):
+                            acc.violation("L1:answer-depends-on-earlier-calls", f"{cell}: strict {rt} then lenient {rf}, asked again: strict {rt2}, lenient {rf2}", cell, cid)
                         # ---- L1 closure / totality
                         acc.oracle("L1")
                         for tag, r in (("raise", rt), ("noraise", rf)):
